@@ -163,7 +163,7 @@ PROPS['C12'] = dict(
     level_text='Allocator: complete proof of address/length/alignment/disjointness postconditions and of the availability ledger (avail decreases by exactly len + alignment padding; no padding when len is a multiple of 64); no panic whenever the request fits; the out-of-space panic is reachable only when it does not fit (should_panic harness). Coefficient-domain in-place ops (rotate/automorphism/mul_xp_minus_one/normalize _assign): unbounded Verus chain size query -> HAL default glue (take_slice of *_tmp_bytes/8 elements) -> scratch precondition of the reference operation.',
     level_note='Core layer: glwe_keyswitch_tmp_bytes / glwe_keyswitch_internal_tmp_bytes / gglwe_product_dft_tmp_bytes (and glwe_decrypt_tmp_bytes for glwe_decrypt) are proved sufficient for glwe_keyswitch, glwe_keyswitch_internal and gglwe_product_dft (every take and every inner availability assertion holds with exactly the advertised bytes, unbounded in all shape parameters) under A-ALIGN and A-VMP-RES; the other DFT-family and core operations are NOT decided here; for ring degrees N < 8 limb byte sizes are not multiples of 64 and padding is not budgeted by size queries (DESIGN §6-4).',
     units=[
-        V('core_glwe_encrypt'), V('core_key_encrypt'), V('core_ksk_encrypt'),
+        V('core_glwe_encrypt'), V('core_key_encrypt'), V('core_ksk_encrypt'), V('core_glwe_aut'),
         K('poulpy-cpu-ref', 'hal_defaults::scratch::verif_kani', ['c12_take_slice_aligned_contract', 'c12_take_slice_aligned_panics_iff_too_small',
           'c12_take_slice_default_u8', 'c12_take_slice_default_i64', 'c12_take_slice_default_f64', 'c12_take_slice_default_i128'], cls='complete', timeout=600,
           functions=['hal_defaults::scratch::take_slice_aligned', 'HalScratchDefaults::take_slice_default', 'HalScratchDefaults::scratch_available_default', 'HalScratchDefaults::scratch_from_bytes_default']),
@@ -277,7 +277,7 @@ PROPS['C03'] = dict(
     technique='Verus contracts on the real text of mod_exp_u64 / galois_element / galois_element_inv with number-theoretic lemmas (g*g^(M-1) == 1 mod 2^k); dependency-flow and radix-discipline contracts on the real text of the key-switching glue (gglwe_product_dft, glwe_keyswitch_internal, glwe_keyswitch, glwe_automorphism, glwe_automorphism_add) over assumed flow contracts of the transform-domain HAL operations',
     level_text='Unbounded proof: mod_exp_u64(x,e) == x^e mod 2^64 for all x,e; galois_element follows the sign convention and equals 5^|k| mod 2N; galois_element_inv(g)*g == 1 mod 2N for every odd g and every power-of-two order <= 2^33. Key-switching glue, for EVERY digit size, digit count, rank, limb count and input/key/output radix admitted by the API: no panic (every set_size within capacity, no underflow in the digit-group limb counts, every inner scratch assertion holds with exactly the advertised bytes), no stale scratch or result bytes reach the output (the accumulator must be cleared: for dsize >= 3 its last limbs are only added to), and every coefficient-domain vector folded into the key-switch accumulator is expressed in the key radix (the re-normalised copy, not the original operand, in the cross-radix branch).',
     level_note='Ring packing: each pairwise merge (pack_internal of glwe_pack, combine of the on-the-fly packer) produces, for EVERY presence pattern of its two operands, the one documented formula a/2 + (b/2)X^t + phi(a/2 - (b/2)X^t) over abstract plaintext values (module axioms + the level identity phi(xX^t) = -X^t phi(x) as precondition; GLWE operation values trusted). The glue statements are about which inputs reach the output and in which radix, not about values: that the gadget product decrypts to the expected image within the noise bound needs exact DFT products (C07) and is undecided, as are trace / packing / LWE conversion semantics and the sub / sub_negate / assign variants of the automorphism (same structure, not yet extracted).  Matrix level (core_matrix): GGLWE / GGSW key-switch, GGSW automorphism and the composition of automorphism keys apply the GLWE-level operation (abstract value function) to EVERY cell / every column of every cell of the result, for every row count the asserts admit.',
-    units=[V('core_key_encrypt'), V('core_ksk_encrypt'), V('galois', lemmas=['lemma_odd_pow', 'lemma_galois_inverse']), V('core_keyswitch'), V('core_lwe_ksk'), V('core_trace'), V('core_lwe_to_glwe'), V('core_matrix', lemmas=['lemma_same_layout']),
+    units=[V('core_key_encrypt'), V('core_ksk_encrypt'), V('core_glwe_aut'), V('galois', lemmas=['lemma_odd_pow', 'lemma_galois_inverse']), V('core_keyswitch'), V('core_lwe_ksk'), V('core_trace'), V('core_lwe_to_glwe'), V('core_matrix', lemmas=['lemma_same_layout']),
            V('core_packing', lemmas=['lemma_merge_both', 'lemma_merge_lo', 'lemma_merge_hi', 'lemma_neg_add']), V('core_sample_extract'),
            K('poulpy-cpu-ref', 'verif_kani', ['c03_mask_mod_u64'], cls='complete', timeout=300, functions=['leaf fact x & (m-1) == x mod m (u64)'])],
     trusted_base=VERUS_TRUST + CORE_TRUST + ['assumed specifications of i64::unsigned_abs, i64::signum, u64::is_power_of_two',
